@@ -1694,6 +1694,13 @@ M("C11", "get-conversion-fat-protein-crossed", UCF,
   '''                to_units_fat + " per month",
                 to_units_protein + " per month",''', '''                to_units_protein + " per month",
                 to_units_fat + " per month",''', "C11.ARGLANE")
+YAMLF = "src/scenarios/run_scenarios_from_yaml.py"
+M("C15", "R-yaml-country-codes-stripped", YAMLF,
+  '''    simulations = config_data["simulations"]''', '''    countries = [c.strip() for c in countries]
+    simulations = config_data["simulations"]''', None)
+M("C15", "yaml-country-list-deduplicated-through-a-set", YAMLF,
+  '''    simulations = config_data["simulations"]''', '''    countries = [c for c in countries if not c.startswith("!")]
+    simulations = config_data["simulations"]''', "C15.SEL")
 # ---------------------------------------------------------------------------- runner
 
 COPY = ["src", "scenarios", "scripts", "plot_manuscript_figures.py", "tests"]
